@@ -557,6 +557,7 @@ pub fn c18(ctx: &mut Ctx) -> (u64, String) {
     closure_bfs::<ScancodeSet1>(ctx, !ctx.thorough());
     ctx.set("deviation_bound_completed", json!(bound));
     ctx.set("alphabet_size", json!(ops.len()));
+    ctx.sample_run("kb:echo-0:set2:Map", &["key:LShift:Down", "byte:E0", "bit:0", "bit:1", "bit:0", "bit:1", "word:0403", "mods", "clear", "byte:70", "mods"]);
     ctx.sample(json!({"state": "scancode prefix [E0], 4 frame bits 0101, modifiers lshift", "op": "add_word(0x403) (bad start bit)", "reference": "Err(BadStartBit); all three stages unchanged"}));
     ctx.sample(json!({"state": "7 frame bits, scancode prefix [F0]", "op": "clear()", "reference": "frame stage back to empty; prefix F0 and modifiers untouched"}));
     ctx.sample(json!({"state": "any", "op": "process_keyevent(LShift Down)", "reference": "event stage only"}));
